@@ -80,6 +80,53 @@ theorem jwk_parse_of_spec_ec (o : Oracle) (L : Laws o) (cp : CP) (extras : Obj) 
       .ok (ecKey (cp.key (specEncode (encS o) (encStdS o) (.ec sc x y d) cp.toSpec extras) jwa.EC) c x y d) :=
   parse_ec o L _ extras cp c sc hsc x y d (fun _ _ => rfl) hraw K E hcert
 
+/-! ## RSA public keys: minimal-length `n` and `e` -/
+
+/-- closed form of the object `MarshalJSON` serialises for an RSA public key -/
+def rsaPubObj (o : Oracle) (k : Key) (n e : Nat) : Obj :=
+  oset (oset (oset (commonObj o k.raw k) "kty" (.str jwa.RSA)) "e" (.str (encS o (minBE e))))
+    "n" (.str (encS o (minBE n)))
+
+theorem marshal_rsa_pub (o : Oracle) (k : Key) (n e : Nat) (hp : k.pub = .rsa ⟨n, e⟩) (hq : k.priv = .none)
+    (hn : 0 < n) (he : 2 ≤ e) (he' : e ≤ 2147483647) :
+    (marshal k).run o = .ok (rsaPubObj o k n e) := by
+  have h1 : n ≠ 0 := by omega
+  have h2 : ¬ ((e : Int) < 2 ∨ (e : Int) > 2147483647) := by omega
+  unfold marshal
+  simp only [PO.run_bind, run_encodeCommon, hp, hq]
+  simp [encodeMaterial, encodeRsa, validateRsaPub, h1, h2, rsaPubObj]
+
+/-- **RSA public keys: the emitted object is the registered representation**; in particular `e` and
+    `n` are base64url of the MINIMAL-length big-endian octets (no leading zero octet, for every
+    exponent 2 ≤ e < 2^31 — including those whose bit length is a multiple of 8). -/
+theorem jwk_marshal_is_registered_rsa_pub (o : Oracle) (k : Key) (n e : Nat) (hp : k.pub = .rsa ⟨n, e⟩)
+    (hq : k.priv = .none) (hn : 0 < n) (he : 2 ≤ e) (he' : e ≤ 2147483647) :
+    ∃ m, (marshal k).run o = .ok m ∧
+      (∀ name, Wire.lookup name m =
+        Wire.lookup name (specEncode (encS o) (encStdS o) (.rsa n e none) (specParams o k) k.raw)) ∧
+      (∃ be bn, Wire.lookup "e" m = some (.str (encS o be)) ∧ IsMinimalOctets be e ∧
+                Wire.lookup "n" m = some (.str (encS o bn)) ∧ IsMinimalOctets bn n) := by
+  refine ⟨_, marshal_rsa_pub o k n e hp hq hn he he', ?_, ?_⟩
+  · intro name
+    unfold rsaPubObj
+    simp only [lookup_oset]
+    by_cases h1 : name = "n"
+    · subst h1; simp [specEncode, materialMembers, Wire.lookup, mKty, mN, minOctets_eq]
+    by_cases h2 : name = "e"
+    · subst h2; simp [specEncode, materialMembers, Wire.lookup, mKty, mN, mE, minOctets_eq]
+    by_cases h3 : name = "kty"
+    · subst h3; simp [specEncode, Wire.lookup, mKty, KeyMaterial.kty, ktyRSA]; decide
+    rw [if_neg h1, if_neg h2, if_neg h3, lookup_commonObj _ _ _ _ h3]
+    simp [specEncode, materialMembers, Wire.lookup, mKty, mN, mE, lookup_append, h1, h2, h3]
+  · refine ⟨minOctets e, minOctets n, ?_, minOctets_minimal e, ?_, minOctets_minimal n⟩
+    · simp [rsaPubObj, lookup_oset, minOctets_eq]
+    · simp [rsaPubObj, lookup_oset, minOctets_eq]
+
+/-- non-vacuity / regression anchor: the exponents at the octet-length boundaries have no leading
+    zero octet in the model's encoding (255 ↦ ff, 256 ↦ 01 00, 65535 ↦ ff ff, 2^24−1 ↦ ff ff ff) -/
+example : minBE 255 = [0xff] ∧ minBE 256 = [1, 0] ∧ minBE 65535 = [0xff, 0xff] ∧ minBE 65536 = [1, 0, 0] ∧
+    minBE 16777215 = [0xff, 0xff, 0xff] ∧ minBE 128 = [0x80] ∧ minBE 32768 = [0x80, 0] := by decide
+
 /-! ## RFC 7638 thumbprints -/
 
 /-- the JSON serialiser (encoding/json.Marshal; sorts the keys) as a function -/
